@@ -1,0 +1,12 @@
+//go:build verif
+
+// Contracts for the deductive verification in /verif (govc). Comment-only:
+// with the build tag off this file is not compiled, with it on it declares nothing.
+package goexpression
+
+// C06: whatever go/parser reports, the offsets handed back never point past the text that was given and are ordered
+// (go/parser's error recovery can produce node ends beyond the input; the clamp is what the callers' slicing
+// src[start:end] relies on). The lower bound 0 <= start comes from go/parser's token positions and is assumed by the
+// callers, not established here.
+//@ func extract [C06]
+//@   ensures end <= len(content) && start <= end
